@@ -18,14 +18,18 @@ import (
 )
 
 // toRE2 renders the AST in RE2 syntax (independent of parser.TransformRegExp).
-func toRE2(n *regex.Node, sb *strings.Builder, multiline bool) {
+func toRE2(n *regex.Node, sb *strings.Builder, multiline, plainDot bool) {
 	switch n.Kind {
 	case regex.KEmpty:
 		sb.WriteString("(?:)")
 	case regex.KChar:
 		fmt.Fprintf(sb, `\x{%X}`, n.Ch)
 	case regex.KDot:
-		sb.WriteString(`[^\n\r\x{2028}\x{2029}]`)
+		if plainDot {
+			sb.WriteString(`(?-s:.)`)
+		} else {
+			sb.WriteString(`[^\n\r\x{2028}\x{2029}]`)
+		}
 	case regex.KClass:
 		sb.WriteByte('[')
 		if n.Set.Invert {
@@ -53,22 +57,22 @@ func toRE2(n *regex.Node, sb *strings.Builder, multiline bool) {
 		sb.WriteString(`\B`)
 	case regex.KSeq:
 		for _, k := range n.Kids {
-			toRE2(k, sb, multiline)
+			toRE2(k, sb, multiline, plainDot)
 		}
 	case regex.KAlt:
 		for i, k := range n.Kids {
 			if i > 0 {
 				sb.WriteByte('|')
 			}
-			toRE2(k, sb, multiline)
+			toRE2(k, sb, multiline, plainDot)
 		}
 	case regex.KGroup:
 		sb.WriteByte('(')
-		toRE2(n.Kids[0], sb, multiline)
+		toRE2(n.Kids[0], sb, multiline, plainDot)
 		sb.WriteByte(')')
 	case regex.KNCGroup:
 		sb.WriteString("(?:")
-		toRE2(n.Kids[0], sb, multiline)
+		toRE2(n.Kids[0], sb, multiline, plainDot)
 		sb.WriteByte(')')
 	case regex.KQuant:
 		k := n.Kids[0]
@@ -76,7 +80,7 @@ func toRE2(n *regex.Node, sb *strings.Builder, multiline bool) {
 		if wrap {
 			sb.WriteString("(?:")
 		}
-		toRE2(k, sb, multiline)
+		toRE2(k, sb, multiline, plainDot)
 		if wrap {
 			sb.WriteByte(')')
 		}
@@ -123,12 +127,12 @@ type re2Engine struct {
 	ncap    int
 }
 
-func newRE2Engine(p *regex.Pattern, ignoreCase, multiline bool) (*re2Engine, error) {
+func newRE2Engine(p *regex.Pattern, ignoreCase, multiline, plainDot bool) (*re2Engine, error) {
 	if p.Root == nil || p.HasLook || p.HasBack || hasEmptyClass(p.Root) {
 		return nil, fmt.Errorf("not translatable")
 	}
 	var sb strings.Builder
-	toRE2(p.Root, &sb, multiline)
+	toRE2(p.Root, &sb, multiline, plainDot)
 	src := sb.String()
 	if ignoreCase {
 		src = "(?i:" + src + ")"
@@ -152,18 +156,26 @@ func isASCII(s []uint16) bool {
 }
 
 // find returns the RE2 leftmost-first match starting at >= from with the full
-// subject as context (ASCII subjects only: bytes == code units).
+// subject as context. from > 0 is supported on ASCII subjects only (bytes ==
+// code units); from == 0 on any BMP subject (byte offsets are mapped back).
 func (e *re2Engine) find(s []uint16, from int) (*regex.MatchResult, error) {
-	if !isASCII(s) {
-		return nil, fmt.Errorf("re2 alternative model is defined on ASCII subjects only")
-	}
 	str := regex.String16(s)
 	if from == 0 {
 		loc := e.plain.FindStringSubmatchIndex(str)
 		if loc == nil {
 			return nil, nil
 		}
+		if !isASCII(s) {
+			for i, o := range loc {
+				if o >= 0 {
+					loc[i] = len(regex.Units(str[:o]))
+				}
+			}
+		}
 		return &regex.MatchResult{Caps: loc}, nil
+	}
+	if !isASCII(s) {
+		return nil, fmt.Errorf("re2 alternative model with a start offset is defined on ASCII subjects only")
 	}
 	if from > len(s) {
 		return nil, nil
